@@ -358,7 +358,8 @@ def block_addressing_rule(ctx, rule):
                 if any(a[0] in ("lt", "le") and t and re.search(r"2048|4096|MAX_PREALLOCATED", show(a[1]) + show(a[2])) for (a, t) in fl.facts_at(bb))]
     for bb, e in errs:
         fs = [(a, t) for (a, t) in fl.facts_at(bb) if a[0] in ("lt", "le") and t and re.search(r"2048|4096", show(a[1]))]
-        if fs and all(show(strip_ref(a[2])) == SLOT for (a, t) in fs):
+        slotx = set([SLOT] + [show(strip_ref(sl.expand(e_)), 300) for e_, _b in defs])   # the slot local, or its definition written out
+        if fs and all(show(strip_ref(a[2]), 300) in slotx for (a, t) in fs):
             rule.ok(key, "under %s" % "; ".join("%s %s %s" % (show(a[1]), "<" if a[0] == "lt" else "<=", show(a[2])) for a, t in fs), loc(f.sp))
         else:
             rule.violation(key, "the refusal is decided by %s: an absolute block number makes large but legitimate objects fail" % (
